@@ -16,7 +16,7 @@ import (
 )
 
 type WStep struct {
-	Op  string `json:"op"` // block | undo | verify | ingest | prune
+	Op  string `json:"op"` // block | undo | verify | ingest | vpp | badverify | prune | reread | restart
 	B   *Block `json:"b,omitempty"`
 	Set []int  `json:"set,omitempty"`
 }
@@ -240,6 +240,28 @@ func (w *world) prepare(i int, st WStep) (call func(in *Inst) error, post func()
 			return nil
 		}
 		post = func() {}
+	case "restart":
+		// the process is shut down and started again: every forest is written out and replaced by what its
+		// own bytes restore to (a restored forest is not built the way a grown one is); the state does not change
+		call = func(in *Inst) error {
+			if in.S != nil {
+				return nil
+			}
+			var buf bytes.Buffer
+			if _, err := serialize(in, &buf); err != nil {
+				return fmt.Errorf("step %d: %s: writing the forest failed: %v", i, in.Cfg, err)
+			}
+			in2, _, err, perr := restore(in.Cfg, bytes.NewReader(buf.Bytes()))
+			if perr != nil {
+				err = perr
+			}
+			if err != nil {
+				return fmt.Errorf("step %d: %s: restoring the forest from its own %d bytes failed: %v", i, in.Cfg, buf.Len(), err)
+			}
+			in.P, in.M = in2.P, in2.M
+			return nil
+		}
+		post = func() {}
 	default:
 		return nil, nil, fmt.Errorf("case error: unknown op %q", st.Op)
 	}
@@ -306,6 +328,8 @@ func (g *wgen) next(t *rapid.T, lim limits, ops []string) WStep {
 	switch op {
 	case "reread":
 		return WStep{Op: "reread"}
+	case "restart":
+		return WStep{Op: "restart"}
 	case "block":
 		g.stack = append(g.stack, wgFrame{f: g.f.Clone()})
 		b := genBlockSalt(t, g.f, lim, true, g.branch)
